@@ -68,6 +68,22 @@ def canon_types(ts):
     return out
 
 
+def _plain_decoded(t):
+    """the term is a decoded value reached through conversions only (casts, references, `?`, into / from / try_into, tuple
+    projections): no arithmetic, no min / max / saturating adjustment"""
+    k = t[0]
+    if k in ("cast", "ref", "deref", "field"):
+        return _plain_decoded(t[1])
+    if k == "call":
+        m = t[1].split("::")[-1]
+        if t[1].endswith("Decode::decode") or t[1].endswith("Decode>::decode"):
+            return True
+        if m in ("branch", "into", "from", "try_into", "try_from", "unwrap", "expect", "clone", "deref") and t[2]:
+            return _plain_decoded(t[2][0])
+        return False
+    return False
+
+
 def same_components(a, b):
     a, b = canon_types(a), canon_types(b)
     if len(a) != len(b):
@@ -150,6 +166,20 @@ def run(ctx):
                 from codec import returned_offset_is_computed
                 R.ob(not returned_offset_is_computed(d["dec"]), "CODEC", d["dec"].where(), "CODEC|%s|returned-offset-exact" % short,
                      "%s: the returned offset is computed from, not equal to, the offset the last component decode returned" % short)
+        # --- a count prefix drives its read loop unchanged: every `0..n` range whose bound comes from a decoded value uses exactly that
+        # value (conversions only) - `n.min(k)`, `n - 1`, `n / 2` read fewer (or more) elements than were written
+        for b_ in d["dec"].blocks:
+            if b_.get("cleanup"):
+                continue
+            for s_ in b_["stmts"]:
+                if s_["k"] == "assign" and s_["rv"]["k"] == "agg" and (s_["rv"].get("adt") or "").endswith("Range") and len(s_["rv"]["ops"]) == 2:
+                    from terms import rvalue_origin as _rvo
+                    t_ = _rvo(d["dec"], s_["rv"], 0, frozenset(), 60)
+                    up = t_[2][1]
+                    if count_decodes(up) >= 1:
+                        R.ob(_plain_decoded(up) and t_[2][0][0] == "const" and t_[2][0][1] == 0, "CODEC", d["dec"].where(), "CODEC|%s|loop-count" % short,
+                             "%s: the read loop does not run over `0..<the decoded count>` (bound is `%s`): it reads a different number of elements than the "
+                             "writer wrote" % (short, show(up)[:100]), sample={"rule": "CODEC", "type": short, "row": "read loop 0..count"})
         # --- field agreement (composite types)
         fmap, how = decode_field_map(F, d["dec"], ty)
         if fmap is not None and len(e) >= 1 and any(x["field"] for x in e) and _straight(d["dec"]) or (fmap and short == "RawBlock"):
